@@ -80,10 +80,12 @@ def world_for(flavour: str, max_batch: Optional[int]) -> world.World:
     is_async = flavour.startswith('async')
     if flavour == 'async-plain':
         return get_world(True, max_batch, all_coroutines=False)
+    if flavour == 'async-sequential':
+        return get_world(True, max_batch, concurrent_batch=False)
     return get_world(is_async, max_batch, inert=flavour.endswith('-inert'), debuglog=flavour.endswith('-debuglog'))
 
 
-EXTRA_FLAVOURS = ('async-plain', 'sync-inert', 'async-inert', 'sync-debuglog', 'async-debuglog')
+EXTRA_FLAVOURS = ('async-plain', 'sync-inert', 'async-inert', 'sync-debuglog', 'async-debuglog', 'async-sequential')
 
 
 class TextInfo:
